@@ -27,6 +27,7 @@ type c19Name struct {
 	members []int  // number of distinct client addresses (same /24, same group) the burst of a group comes from
 	outcome string // success, nxdomain, servfail, refused, garbage, silence, conn-closed
 	viaTCP  bool   // routed to the TCP upstream (transport errors are immediate there) instead of the UDP one
+	viaStore bool  // asked at the proxy whose cache is the second-level store only (kit/fakeredis.go)
 	newTTL  uint32
 
 	primes    int32
@@ -67,7 +68,7 @@ func c19GroupOf(q *UpQuery) int {
 }
 
 func TestVfC19Prefetch(t *testing.T) {
-	st := vfkit.Stats("TestVfC19Prefetch", "runs of 20-80 independent names: TTL in {6,8,10,12} s, entries primed for 1-3 client groups, then a burst of 1-120 concurrent hits per group (from 1, 2 or 4 client addresses of the group) at a drawn instant inside the last quarter of the lifetime; the upstream holds the refresh reply until all burst responses are collected (or 3 s), then the refresh ends as success (new TTL 30 / 60 s, or 1 / 2 s, i.e. less than what is left of the old entry) / success answered only after the old entry expired / NOERROR-NODATA / NXDOMAIN / SERVFAIL / REFUSED / garbage / silence / connection closed, over a UDP or a TCP upstream (where transport errors are immediate); oracles: every hit of the burst is answered from the old entry while the refresh is held, exactly one refresh per group is started and in flight, after a successful refresh later hits carry the new fetch (without a further upstream query when the reply came after the old expiry), after a failed or negative refresh the old entry is served until its expiry and not 2 s beyond, and a further hit in the window starts a new refresh (the reservation ended with the refresh); non-trivial = burst >= 2 inside the window")
+	st := vfkit.Stats("TestVfC19Prefetch", "runs of 20-80 independent names: TTL in {6,8,10,12} s, entries primed for 1-3 client groups, then a burst of 1-120 concurrent hits per group (from 1, 2 or 4 client addresses of the group) at a drawn instant inside the last quarter of the lifetime; the upstream holds the refresh reply until all burst responses are collected (or 3 s), then the refresh ends as success (new TTL 30 / 60 s, or 1 / 2 s, i.e. less than what is left of the old entry) / success answered only after the old entry expired / NOERROR-NODATA / NXDOMAIN / SERVFAIL / REFUSED / garbage / silence / connection closed, over a UDP or a TCP upstream (where transport errors are immediate), one name in three at a proxy whose cache is the harness's RESP3 store only; oracles: every hit of the burst is answered from the old entry while the refresh is held, exactly one refresh per group is started and in flight, after a successful refresh later hits carry the new fetch (without a further upstream query when the reply came after the old expiry), after a failed or negative refresh the old entry is served until its expiry and not 2 s beyond, and a further hit in the window starts a new refresh (the reservation ended with the refresh); non-trivial = burst >= 2 inside the window")
 	defer vfkit.Flush()
 	block := NextIPBlock()
 	var names sync.Map
@@ -150,6 +151,25 @@ func TestVfC19Prefetch(t *testing.T) {
 		t.Fatal(err)
 	}
 	defer p.Cleanup()
+	// a second proxy with the same rules whose cache is the harness's RESP3 store only: hits, the refresh window (computed
+	// from the whole-second times the store keeps) and the replacing store of a refresh all go through the store client
+	store, err := vfkit.StartFakeRedis(block + "4")
+	if err != nil {
+		t.Fatal(err)
+	}
+	defer store.Close()
+	pip2 := block + "11"
+	cfg2 := *cfg
+	cfg2.Servers = StdServers(pip2, []string{"udp"}, "")
+	cfg2.Cache = &CacheCfg{Redis: store.URL(), IpMarker: "$DIR/marker.txt"}
+	p2, err := StartProxy(cfg2.YAML(), map[string]string{"marker.txt": c07Marker, "viatcp.txt": "prefetchtcp.test\n"}, ProxyOpts{})
+	if err != nil {
+		t.Fatal(err)
+	}
+	defer p2.Cleanup()
+	for until := time.Now().Add(5 * time.Second); store.Pings.Load() < 2 && time.Now().Before(until); {
+		time.Sleep(20 * time.Millisecond)
+	}
 	groupAddr := []string{"127.20.9.", "127.21.0.", "127.23.0."} // g1, g2, none
 	runNo := 0
 	rapid.Check(t, func(t *rapid.T) {
@@ -182,6 +202,7 @@ func TestVfC19Prefetch(t *testing.T) {
 			n.burstAt = 3*q + 150*time.Millisecond + time.Duration(rapid.IntRange(0, int((q-1450*time.Millisecond)/time.Millisecond)).Draw(t, "intoWindowMs"))*time.Millisecond
 			n.outcome = rapid.SampledFrom([]string{"success", "success", "slow-success", "nodata", "nxdomain", "servfail", "refused", "garbage", "silence", "conn-closed"}).Draw(t, "outcome")
 			n.viaTCP = rapid.Bool().Draw(t, "viaTCP")
+			n.viaStore = rapid.IntRange(0, 2).Draw(t, "viaStore") == 0
 			n.newTTL = rapid.SampledFrom([]uint32{30, 60}).Draw(t, "newTTL")
 			if n.outcome == "success" && rapid.IntRange(0, 2).Draw(t, "shortRefresh") == 0 {
 				// the refreshed answer lives shorter than what is left of the old entry: it still replaces it
@@ -208,6 +229,10 @@ func TestVfC19Prefetch(t *testing.T) {
 						close(n.gate)
 					}
 				}()
+				pip := pip
+				if n.viaStore {
+					pip = pip2
+				}
 				name := vfkit.Name{[]byte(n.label), []byte("prefetch"), []byte("test")}
 				if n.viaTCP {
 					name[1] = []byte("prefetchtcp")
@@ -514,14 +539,29 @@ func TestVfC19Prefetch(t *testing.T) {
 		}
 		if e := firstErr.Load(); e != nil {
 			lbl := strings.SplitN(e.(string), ":", 2)[0]
+			viaStore := false
+			for _, n := range all {
+				if n.label == lbl {
+					viaStore = n.viaStore
+				}
+			}
+			if viaStore {
+				t.Fatalf("%v\n(proxy whose cache is the second-level store only)\nproxy log for %s:\n%s", e, lbl, p2.LogLines(lbl, 40))
+			}
 			t.Fatalf("%v\nproxy log for %s:\n%s", e, lbl, p.LogLines(lbl, 40))
 		}
 		if cr := p.Crashed(); cr != "" || p.Exited() {
 			t.Fatalf("proxy died: %s", cr)
 		}
+		if cr := p2.Crashed(); cr != "" || p2.Exited() {
+			t.Fatalf("proxy (second-level store) died: %s", cr)
+		}
 		outcomes := map[string]int{}
 		for _, n := range all {
 			outcomes[n.outcome]++
+			if n.viaStore {
+				outcomes["names-at-the-store-only-proxy"]++
+			}
 			if n.outcome == "success" && n.newTTL <= 2 {
 				outcomes["success-with-ttl-below-the-old-remainder"]++
 			}
